@@ -38,7 +38,7 @@ func registerC19() {
 			"across all runs; SDK version in header and constants; the generated files compile together with the library's support code (accumu, pfield, latlng, time, types_man, " +
 			"internal/types) in a scratch module, and a dump program linked against them prints every message's struct fields and table entries, which are compared with the " +
 			"harness's independent reading of the variant workbook (i-th enabled row <-> i-th struct field, entry = {i, field number, base type, array flag}; nothing for disabled " +
-			"rows). A case is one configuration; non-trivial: at least one row was disabled or it is a stock workbook; distinct by configuration",
+			"rows). One of the four runs has its TMPDIR on another file system than the output directory when the host has one. A case is one configuration; non-trivial: at least one row was disabled or it is a stock workbook; distinct by configuration",
 		Assume: []string{
 			"'no other enabled row depends on it': a row stays enabled while an enabled row names it as component target or as reference field of an enabled sub-field (computed from the workbook by ref/xlsx.go)",
 			"only the part of the library the generated files depend on is compiled: file_types.go / file.go track SDK 21.115 and do not compile against any bundled workbook even unmodified",
